@@ -87,3 +87,23 @@ Definition run_network4 (I0 I1 I2 I3 d0 d1 d2 d3 : list nat) (A B C D : list Z) 
   let od := out_dims (I0 ++ I1 ++ I2) I3 (d0 ++ d1 ++ d2) d3 in
   let r := network4 (S:=ZS) I0 I1 I2 I3 d0 d1 d2 d3 (fun p => nth p A 0%Z) (fun p => nth p B 0%Z) (fun p => nth p C 0%Z) (fun p => nth p D 0%Z) in
   (which_variant4 I0 I1 I2 I3 d0 d1 d2 d3 :: quartet_costs I0 I1 I2 I3 d0 d1 d2 d3, ([fst r; network4_accepts_all (S:=ZS) I0 I1 I2 I3 d0 d1 d2 d3 (fun p => nth p A 0%Z) (fun p => nth p B 0%Z) (fun p => nth p C 0%Z) (fun p => nth p D 0%Z)], if fst r then map (snd r) (seq 0 (prod od)) else [])).
+
+(* ---- C08: integer SIMD lanes *)
+From FastorV Require Import Model.Simd.
+Definition run_simd_int (w : Z) (op : nat) (a b c : list Z) : list Z :=
+  match op with
+  | 0 => v_add w a b | 1 => v_sub w a b | 2 => v_mul w a b | 3 => v_div w a b
+  | 4 => v_neg w a | 5 => v_abs w a | 6 => v_min a b | 7 => v_max a b
+  | 8 => v_fmadd w a b c | 9 => v_fmsub w a b c | 10 => v_fnmadd w a b c
+  | 11 => v_reverse a | 12 => v_set a | 13 => v_set_sequential w (length a) (nth 0 a 0%Z)
+  | 14 => [h_sum w a] | 15 => [h_prod w a] | 16 => [h_dot w a b] | 17 => [h_min a] | _ => [h_max a]
+  end.
+(* the SSE2 int32 helpers as written in extintrin.h *)
+Definition run_simd_sse2 (op : nat) (a b : list Z) : list Z :=
+  match op with
+  | 2 => mul_epi32x_sse2 a b | 4 => neg_epi32 a | 5 => abs_epi32_sse2 a | 11 => reverse_epi32 a
+  | 14 => [sum_epi32 a] | 15 => [prod_epi32 a] | _ => [dot_epi32_sse2 a b]
+  end.
+Definition run_mask_store (n : nat) (mask : Z) (v mem : list Z) : list Z :=
+  map (mask_store_fb n mask v (fun q => nth q mem 0%Z)) (seq 0 (length mem)).
+Definition run_mask_load (n : nat) (mask : Z) (mem : list Z) : list Z := mask_load_fb n mask (fun q => nth q mem 0%Z).
